@@ -3,7 +3,7 @@
    for a refutation) and followed by Print Assumptions. *)
 From Coq Require Import ZArith QArith List Bool Lia.
 From NV Require Import Base.Bytes C16.Tables C16.Model C16.ModelAffine
-  C16.Lemmas C16.LemmasTrk C16.LemmasTckHdr C16.LemmasAffine C16.ModelLazy C16.LemmasLazy C16.LemmasSession.
+  C16.Lemmas C16.LemmasTrk C16.LemmasTckHdr C16.LemmasAffine C16.ModelLazy C16.LemmasLazy C16.LemmasSession C16.LemmasAbandon.
 From Coq Require Reals.
 From NV Require C16.ModelFloat C16.LemmasFloat.
 Import ListNotations.
@@ -178,7 +178,7 @@ Print Assumptions C16_position_restored.
    loads succeed, every COMPLETE pass over the streamlines of the lazily loaded file - after any
    earlier complete or abandoned passes - returns exactly what the eager load returns (each pass
    starts from the same position and bytes: C16_position_restored).  pass_agrees says nothing
-   about an abandoned pass (its first k items are compared by the harness only). *)
+   about an abandoned pass: that is C16_abandoned_is_prefix below. *)
 Theorem C16_lazy_equals_eager :
   (forall b ps0 passes f r0 fe r f',
      tck_session b false ps0 f = Ok (r0, fe) -> tck_session b true passes f = Ok (r, f') ->
@@ -188,6 +188,31 @@ Theorem C16_lazy_equals_eager :
      exists re, r0 = [re] /\ Forall2 (pass_agrees re) (PAbandon 1 :: passes) r).
 Proof. split; [exact tck_lazy_eager|exact trk_lazy_eager]. Qed.
 Print Assumptions C16_lazy_equals_eager.
+
+(* ---- an ABANDONED pass (the generator dropped after its k-th item: next(iter(...)), zip with a
+   shorter sequence, the first-item peek inside load(lazy_load=True)) returns exactly the first k
+   streamlines of the eager load - for every k (k beyond the end: all of them), any number of
+   earlier complete or abandoned passes, TCK with any buffer size and TRK alike: pass_exact is
+   pass_agrees with `a = firstn k re` for PAbandon k.  Hypothesis: the eager load of the same
+   file object succeeds (an abandoned pass never meets the errors of later records, so the
+   converse is not claimed); C16_lazy_never_fails: then no lazy session fails either. *)
+Theorem C16_abandoned_is_prefix :
+  (forall b ps0 passes f r0 fe r f',
+     tck_session b false ps0 f = Ok (r0, fe) -> tck_session b true passes f = Ok (r, f') ->
+     exists re, r0 = [re] /\ Forall2 (pass_exact re) (PAbandon 1 :: passes) r)
+  /\ (forall o ps0 passes f r0 fe r f',
+     trk_session o false ps0 f = Ok (r0, fe) -> trk_session o true passes f = Ok (r, f') ->
+     exists re, r0 = [re] /\ Forall2 (pass_exact re) (PAbandon 1 :: passes) r).
+Proof. split; [exact tck_lazy_prefix|exact trk_lazy_prefix]. Qed.
+Print Assumptions C16_abandoned_is_prefix.
+
+Theorem C16_lazy_never_fails :
+  (forall b ps0 passes f r0 fe, tck_session b false ps0 f = Ok (r0, fe) ->
+     exists r f', tck_session b true passes f = Ok (r, f'))
+  /\ (forall o ps0 passes f r0 fe, trk_session o false ps0 f = Ok (r0, fe) ->
+     exists r f', trk_session o true passes f = Ok (r, f')).
+Proof. split; [exact tck_lazy_total|exact trk_lazy_total]. Qed.
+Print Assumptions C16_lazy_never_fails.
 
 (* ---- FLOAT ARITHMETIC of the TRK coordinates, first bound (Flocq, round-to-nearest-even in the
    formats FLX 53 / FLX 24: unbounded exponent range, i.e. no overflow and no subnormal product),
